@@ -12,6 +12,7 @@ import (
 	"flag"
 	"fmt"
 	"os"
+	"strconv"
 	"strings"
 
 	"cosmossdk.io/math"
@@ -65,6 +66,11 @@ func cmdRun(args []string) {
 	digests := fs.Bool("digests", false, "log per-step determinism digests (C19)")
 	must(fs.Parse(args))
 	fullReimport = *full
+	if v := os.Getenv("VERIF_SEED"); v != "" {
+		if n, err := strconv.ParseInt(v, 10, 64); err == nil {
+			verifSeed = n
+		}
+	}
 
 	w, err := NewWorld(nil)
 	if err != nil {
